@@ -58,7 +58,7 @@ def cases(draw, tier):
                            max_arity=4, styles=('plain', 'digits', 'mixed'), max_outputs=5,
                            dup_rate=draw(st.sampled_from([0, 2, 4])), const_operands=(0, 0, 2),
                            sinks_as_outputs=draw(st.booleans())))
-    return {'nl': nl, 'route': draw(gen.routes(nl)), 'spec': spec}
+    return {'nl': nl, 'route': draw(gen.routes(nl)), 'spec': spec, 'reuse_instance': draw(st.booleans())}
 
 
 def _mods():
@@ -106,13 +106,27 @@ def atoms_of(spec) -> list:
     raise ValueError(spec)
 
 
-def apply_spec(spec, circuit):
+_INSTANCES: dict = {}
+
+
+def _instance(spec, reuse):
+    """A transformer object for `spec`: fresh, or (reuse) the one this process already used for the same spec - passes
+    are advertised as reusable objects, so nothing may be remembered from one transform() to the next."""
+    if not reuse:
+        return build_transformer(spec)
+    key = repr(spec)
+    if key not in _INSTANCES:
+        _INSTANCES[key] = build_transformer(spec)
+    return _INSTANCES[key]
+
+
+def apply_spec(spec, circuit, reuse=False):
     m = _mods()
     if spec[0] == 'cleanup':
         return m['cleanup'](circuit, use_heavy=bool(spec[1]))
     if spec[0] == 'list':
-        return m['Transformer'].apply_transformers(circuit, [build_transformer(s) for s in spec[1]])
-    return build_transformer(spec).transform(circuit)
+        return m['Transformer'].apply_transformers(circuit, [_instance(s, reuse) for s in spec[1]])
+    return _instance(spec, reuse).transform(circuit)
 
 
 def netlist_twin_classes(nl) -> set:
